@@ -338,6 +338,11 @@ def gen_op(ctx, shadow, at=None, ps_choices=None, engine_ports=None):
         except Exception:
             pass
         mv = {'source': key if rng.random() < 0.8 else (key,), 'target': target}
+        subs = [k2 for k2, n2 in node.inner[key].inner.items() if not _is_proc(n2)]
+        if subs and rng.random() < 0.2 and engine_ports is None:
+            # a source path of two segments: the node goes to <target>/<key>/<sub> (F56: and is reported there)
+            mv = {'source': (key, rng.choice(subs)), 'target': target}
+            return b, {'_move': [mv]}, 'move', ps
         if rng.random() < 0.2:
             src = node.inner[key]
             lv = [(p, n) for p, n in _leaves(src)]
